@@ -64,6 +64,36 @@ class Stepper(object):
                 resp = h.api(command, data, anonymous=anonymous)
             except (ValueError, TypeError) as exc:
                 raised = type(exc).__name__
+        elif k == "burst":
+            # n add requests, three quarters of them deleted again at once: per request exactly one notification carrying the list
+            _, n, keep, base = op
+            for i in range(n):
+                rid = "b%d_%d" % (base, i)
+                data = {"type": "CircularRegion", "cx": 5.0 + i % 50, "cy": 7.0 + i // 50, "r": 1.5, "id": rid}
+                for command, body in ([("addExcludeRegion", data)] + ([("deleteExcludeRegion", {"id": rid})] if i % 4 != keep else [])):
+                    n0 = len(h.pm.messages)
+                    resp = h.api(command, body)
+                    sent = h.pm.messages[n0:]
+                    if command == "deleteExcludeRegion" and resp is not None:
+                        # refused (a print is active and shrinking is not allowed): nothing changes, nobody is told
+                        if sent or h.regions() != self.model:
+                            bad("c13_rejected_changes", "refused delete %s in a burst changed the list or notified clients" % rid)
+                            break
+                        continue
+                    if command == "addExcludeRegion":
+                        self.model.append(serial(data))
+                    else:
+                        self.model = [r for r in self.model if r["id"] != rid]
+                    if resp is not None or len(sent) != 1 or sent[0][1].get("excluded_regions") != self.model:
+                        bad("c13_notification_count", "request %d of a burst (%s %s): response %r, %d notifications, payload equals the list: %s" % (
+                            i, command, rid, resp, len(sent), bool(sent) and sent[0][1].get("excluded_regions") == self.model))
+                        break
+                if out:
+                    break
+            self.mutations += 3
+            self.classes.add("burst_of_%d" % n)
+            before = h.regions()            # (the burst's own requests were judged one by one above)
+            nmsg = len(h.pm.messages)
         elif k == "event":
             h.event(op[1], dict(op[2]) if len(op) > 2 and op[2] else None)
         elif k == "setting":
@@ -149,7 +179,7 @@ def run_case(case, strict=False):  # pylint: disable=unused-argument
     return stateful.replay(mod, case)
 
 
-num = st.one_of(st.integers(-5, 60), st.sampled_from([0.5, 10.25, 20.75, 1e9, -3.5]))
+num = st.one_of(st.integers(-5, 60), st.sampled_from([0.5, 10.25, 20.75, 1e9, -3.5, 10.1234567, 33.33333333333333, 0.0004, 7.0000001]))
 ids = st.sampled_from(["a", "b", "c", "d", "zz", "a", "b", "", 0])        # (falsy ids are ids too)
 PAYLOADS = [
     {"name": "a.gcode", "path": "a.gcode", "origin": "local", "size": 1234},
@@ -252,6 +282,12 @@ def machine(tier, col):  # pylint: disable=unused-argument
         @rule(name=st.sampled_from(("PRINT_STARTED", "FILE_SELECTED", "FILE_SELECTED", "FILE_SELECTED") + END_EVENTS), payload=st.sampled_from(PAYLOADS))
         def event_with_payload(self, name, payload):
             self.do(["event", name, payload])
+
+        @rule(n=st.sampled_from([40, 130, 300]), keep=st.integers(0, 3), go=st.integers(0, 24))
+        def burst(self, n, keep, go):
+            """A long session (rare): many regions drawn and removed again in quick succession; every change is notified."""
+            if go == 0:
+                self.do(["burst", n, keep, len(self.case["ops"])])
 
         @rule(key=st.sampled_from(["clearRegionsAfterPrintFinishes", "mayShrinkRegionsWhilePrinting"]), val=st.booleans())
         def setting(self, key, val):
